@@ -264,6 +264,7 @@ structure Mon where
   delKeyFault : Bool := false
   forgot : Bool := false
   dne : List Nat := []          -- accounts the CA has disowned
+  nerr : Nat := 0               -- failed storage operations in the whole observation
   bad : Option String := none
 
 def flag (m : Mon) (why : String) : Mon := if m.bad.isSome then m else { m with bad := some why }
@@ -273,7 +274,13 @@ def monStep (m : Mon) (tok : String) : Mon :=
   match tok.splitOn ":" with
   | ["R", _, _, "e"] => { m with faulty := true }
   | ["L", _, res] => if okTok res then m else { m with faulty := true }
-  | ["U", _, res] => if okTok res then m else { m with faulty := true }
+  | ["U", _, res] =>
+    if okTok res then
+      -- "persisted together": when the registration lock is given back, a stored registration has
+      -- its key next to it (a failed save was rolled back) — unless the roll-back itself was hit
+      -- by a further fault
+      if m.reg.isSome && m.key != m.reg && m.nerr ≤ 1 then flag m "registration-stored-without-its-key" else m
+    else { m with faulty := true }
   | ["N", _, _, out] =>
     if out = "c" then
       let m := { m with created := m.created + 1 }
@@ -311,7 +318,8 @@ def monStep (m : Mon) (tok : String) : Mon :=
   | _ => m
 
 def spec (toks : List String) : String :=
-  let m := toks.foldl monStep {}
+  let m := toks.foldl monStep { nerr := (toks.filter (fun t => t.endsWith ":e" &&
+    (t.startsWith "W:" || t.startsWith "D:" || t.startsWith "R:" || t.startsWith "L:" || t.startsWith "U:"))).length }
   let m := if !m.delKeyFault && m.reg.isSome && m.key.isSome && m.reg != m.key then flag m "mixed-account-files" else m
   match m.bad with
   | some w => "bad:" ++ w
